@@ -317,6 +317,71 @@ def same_runner_two_graphs(acc):
         acc.violation({"symptom": sym, "history": "one-runner-two-graphs"}, {"same_runner": True}, msg)
 
 
+def cached_interrupt_histories(acc, depth=3):
+    """cache=True on the interrupt itself: EVERY sequence of <= depth calls (no response / response A / response B) on one
+    runner with one cache, for a handler that always pauses and one that always answers, must give at every position the
+    result of the same call on a runner without a cache (a supplied response is what the run uses; no response and a
+    pausing handler means PAUSED)."""
+    import tempfile
+
+    from hypergraph import AsyncRunner
+    from hypergraph.cache import DiskCache, InMemoryCache
+
+    from .. import seams
+    from ..vloop import VLoop
+
+    e = {"e0": ("prov", "e0")}
+    calls = [("none", {}), ("A", {"decision": ("resp", "A")}), ("B", {"decision": ("resp", "B")})]
+    for mode in ("pause", "answer"):
+        for emit in (False, True):
+            kw = {"emit": ["asked"]} if emit else {}
+            prog = T.prog([T.fn("mk", ["e0"], ["draft"]), T.interrupt("ask", ["draft"], ["decision"], behav=mode, cache=True, **kw), T.fn("use", ["decision"], ["final"], **({"wait_for": ["asked"]} if emit else {}))])
+            ap = T.set_async(prog, True)
+            for s_ in ap["nodes"]:
+                if s_["kind"] == "interrupt":
+                    s_.pop("async", None)
+            for backend in ("mem", "disk"):
+                for d in range(1, depth + 1):
+                    for hist in itertools.product(calls, repeat=d):
+                        tmp = tempfile.mkdtemp(prefix="c14_", dir="/dev/shm") if backend == "disk" else None
+                        try:
+                            cache = InMemoryCache() if backend == "mem" else DiskCache(tmp)
+                            views = []
+                            for runner in (AsyncRunner(cache=cache), AsyncRunner()):
+                                h = H()
+                                g = build(ap, h)
+                                row = []
+                                for label, extra in hist:
+                                    loop = VLoop()
+                                    h.loop = loop
+                                    try:
+                                        with seams.use(h):
+                                            res = loop.run_main(runner.run(g, {**e, **extra}, error_handling="continue"), _Z())
+                                        row.append((res.status.value, tuple(sorted((k, repr(v)) for k, v in res.values.items()))))
+                                    except Exception as ex:  # noqa: BLE001
+                                        row.append(("raised", type(ex).__name__))
+                                    finally:
+                                        loop.close()
+                                    acc.evaluations += 1
+                                views.append(row)
+                        finally:
+                            if tmp:
+                                import shutil
+
+                                shutil.rmtree(tmp, ignore_errors=True)
+                        acc.key(("cached-interrupt", mode, emit, backend, tuple(l for l, _ in hist)))
+                        for pos, (a, b) in enumerate(zip(*views)):
+                            if a != b:
+                                what = "supplied-response-overridden" if hist[pos][0] != "none" else "pause-skipped-or-stale-answer"
+                                acc.violation(
+                                    {"symptom": "cached-interrupt-differs-from-uncached", "what": what, "handler": mode},
+                                    {"cached_interrupt": True},
+                                    f"interrupt with cache=True ({backend}, handler always {mode}s), calls {[l for l, _ in hist]}: call #{pos + 1} gives {jsonable(a)} but without a cache {jsonable(b)}",
+                                    size=d,
+                                )
+                                break
+
+
 def nested_check(acc):
     from hypergraph import AsyncRunner
 
@@ -358,6 +423,7 @@ def run_shard(shard):
     if s == "nested":
         nested_check(acc)
         same_runner_two_graphs(acc)
+        cached_interrupt_histories(acc, 3 if tier == "quick" else 4)
         return acc
     for ci, (family, prog, inputs) in enumerate(_cases(tier)):
         if ci % k != s:
@@ -388,6 +454,10 @@ def coverage_extra(acc, tier, seed):
 
 
 def replay(rep):
+    if rep.get("cached_interrupt"):
+        acc = Acc()
+        cached_interrupt_histories(acc)
+        return [v["message"] for v in acc.violations.values()]
     if rep.get("same_runner"):
         acc = Acc()
         same_runner_two_graphs(acc)
